@@ -55,12 +55,14 @@ def _place_val(env, pl):
     return v
 
 
-def enumerate_paths(body, queries=None, cap=4000):
-    """-> [Path].  `queries`: names of Type queries to treat as atoms (None = every Type::* call returning an Option)."""
+def enumerate_paths(body, queries=None, cap=4000, resolve=None, args=None, assume0=None, depth=0):
+    """-> [Path].  `queries`: names of Type queries to treat as atoms (None = every Type::* call returning an Option).
+    `resolve(callee path) -> Body | None`: crate-local helper functions that are entered (two levels) with the caller's
+    symbolic arguments `args`; their paths fork the caller's path."""
     blocks = body.blocks
     out = []
-    env0 = {i: ("param", i) for i in range(1, body.arg_count + 1)}
-    work = [(0, env0, {}, [], frozenset())]
+    env0 = {i: (args[i - 1] if args is not None and i - 1 < len(args) else ("param", i)) for i in range(1, body.arg_count + 1)}
+    work = [(0, env0, dict(assume0 or {}), [], frozenset())]
     steps = 0
     while work:
         bb, env, assume, events, seen = work.pop()
@@ -133,6 +135,24 @@ def enumerate_paths(body, queries=None, cap=4000):
                 events = events + [("unwrap", a0[1], dict(assume), t.get("line"))]
             elif gen == "std::option::Option::<T>::as_ref" and a0[0] == "query":
                 val = a0
+            elif gen in ("std::option::Option::<T>::is_some_and", "std::option::Option::<T>::map_or") and a0[0] == "query" and (
+                    gen.endswith("is_some_and") or (len(args) > 1 and args[1] == ("const", False))):
+                val = ("implies", a0[1])      # true only if the query answered Some
+            elif resolve is not None and depth < 2 and not path.startswith(("std::", "core::", "alloc::")) and any(a[0] in ("param", "query") for a in args):
+                hb = resolve(path)
+                if hb is not None and hb.arg_count == len(args):
+                    try:
+                        sub = enumerate_paths(hb, queries, cap, resolve, args, assume, depth + 1)
+                    except CannotDecide:
+                        sub = None
+                    if sub:
+                        for sp in sub:
+                            env2 = dict(env)
+                            if dest and not dest.get("p"):
+                                env2[dest["l"]] = sp.ret if sp.ret[0] in ("const", "lit", "implies", "query", "param") else ("unknown",)
+                            if t.get("target") is not None:
+                                work.append((t["target"], env2, dict(sp.assume), events + sp.events, seen))
+                        continue
             if dest and not dest.get("p"):
                 env[dest["l"]] = val
             if t.get("target") is not None:
@@ -167,6 +187,21 @@ def enumerate_paths(body, queries=None, cap=4000):
                     a2 = dict(assume)
                     a2[atom] = tr
                     work.append((tg, env, a2, events, seen))
+            elif v[0] == "implies":
+                atom = v[1]
+                succs = list(targets)
+                covered = {val for val, _ in targets}
+                if other is not None:
+                    succs += [(x, other) for x in ("0", "1") if x not in covered]
+                for val, tg in succs:
+                    if val == "1":
+                        if assume.get(atom) is False:
+                            continue
+                        a2 = dict(assume)
+                        a2[atom] = True
+                        work.append((tg, env, a2, events, seen))
+                    else:
+                        work.append((tg, env, assume, events, seen))
             else:
                 for tg in {tg for _, tg in targets} | ({other} if other is not None else set()):
                     work.append((tg, env, assume, events, seen))
